@@ -307,6 +307,35 @@ func C16Cases(p *spec.Program, seed uint64, tier string, nSplits int) ([]*Case, 
 			}
 			add("cli-precedence:"+d.Name, ref, precedenceRun(p, cfg, d.Name), Expect{Kind: "identical-file"})
 		}
+		// the YAML value differs from the command-line value in letter case only: still another value
+		for _, d := range spec.DualOptions {
+			_, str, isList, set := cfg.DualValue(d.Name)
+			if isList || !set || d.Name == "sort" {
+				continue
+			}
+			other := strings.ToUpper(str)
+			if other == str {
+				other = strings.ToLower(str)
+			}
+			if other == str {
+				continue
+			}
+			dec := cfg.Clone()
+			switch d.Name {
+			case "default_package_name":
+				dec.DefaultPackageName = other
+			case "target_package_name":
+				dec.TargetPackageName = other
+			case "duration_custom_type":
+				dec.DurationCustomType = other
+			}
+			y := dec.Render(allOn(spec.ChYAML), nil)
+			split := allOn(spec.ChNone)
+			split[d.Name] = spec.ChCLI
+			cli := cfg.Render(split, nil)
+			add("cli-precedence-case-only:"+d.Name, ref, RunSpec{Config: &ConfigFile{Mode: "file", Content: y.YAML}, Params: cli.Params,
+				Note: "precedence: the YAML value of " + d.Name + " is " + other + ", the command line carries " + str}, Expect{Kind: "identical-file"})
+		}
 		// every spelling strconv.ParseBool accepts is a value of `sort` on the command line, and it takes
 		// precedence over the opposite value in the YAML file
 		for _, sp := range []struct {
